@@ -71,6 +71,7 @@ type ReqInfo struct {
 	dead      bool
 	sproc     *sched.Proc
 	timer     *manualDeadline
+	saving    int // entry object this request is handing to the store
 }
 
 // manualDeadline a request context whose deadline "passes" when the script says so
@@ -109,6 +110,8 @@ type World struct {
 	tickJump   int64
 	tickFired  bool
 	tickInside bool
+	// GateStoreGet: MemStore.Get is a scheduler gate (relaxed-locking schedules only)
+	GateStoreGet bool
 	// CorruptGzip: cacheable answers of the scripted upstream carry a gzip body that does not decode
 	CorruptGzip bool
 
@@ -265,6 +268,7 @@ func (w *World) Configure(cfgs []DispCfg) {
 			url := "mem://" + c.Name
 			if w.Stores[url] == nil {
 				w.Stores[url] = NewMemStore(w)
+				w.Stores[url].Disp = c.Name
 			}
 			store.VerifRegister(url, w.Stores[url])
 		}
@@ -274,6 +278,26 @@ func (w *World) Configure(cfgs []DispCfg) {
 		if w.handlers[c.Name] == nil {
 			w.handlers[c.Name] = w.newHandler(c.Name)
 		}
+	}
+}
+
+// EmitResident looks at the shards of every cache and records whether one holds more entries than its limit
+func (w *World) EmitResident() {
+	for _, c := range w.dispCfgs {
+		d := cache.GetDispatcher(c.Name)
+		if d == nil {
+			continue
+		}
+		limits, lens := cache.VerifShards(d)
+		over, n, capTotal := false, 0, 0
+		for i := range lens {
+			n += lens[i]
+			capTotal += limits[i]
+			if limits[i] > 0 && lens[i] > limits[i] {
+				over = true
+			}
+		}
+		w.Emit(Event{"op": "Resident", "d": c.Name, "over": over, "n": n, "cap": capTotal})
 	}
 }
 
@@ -723,6 +747,7 @@ func (w *World) point(pt string, obj interface{}, args ...interface{}) {
 		st, _ := cache.VerifEntry(obj)
 		w.mu.Lock()
 		if ri := w.reqGid[gid]; ri != nil {
+			ri.saving = w.entID(obj)
 			// the clock and the lifetime are the true ones (harness clock, what the origin granted),
 			// not the values the code stamped on the entry
 			ev := Event{"op": "Publish", "r": ri.Rid, "e": w.entID(obj), "d": ri.Disp, "k": ri.Key, "st": st.HasStore,
@@ -740,6 +765,7 @@ func (w *World) point(pt string, obj interface{}, args ...interface{}) {
 		now := w.last(gid)
 		w.mu.Lock()
 		if ri := w.reqGid[gid]; ri != nil {
+			ri.saving = w.entID(obj)
 			// the period is the configured one (<= 0: 300 s), counted from the true clock
 			ev := Event{"op": "Hfp", "r": ri.Rid, "e": w.entID(obj), "d": ri.Disp, "k": ri.Key, "st": st.HasStore,
 				"now": w.Clock(), "cnow": now, "eff": w.effHfp(ri.Disp), "code_eff": int(st.ExpiredAt - w.Base - now)}
@@ -1038,6 +1064,7 @@ func (w *World) Close() { w.upSrv.Close() }
 // logged (under the store's own mutex, atomically with its effect)
 type MemStore struct {
 	w    *World
+	Disp string // name of the cache this store belongs to
 	mu   sync.Mutex
 	data map[string][]byte
 	// scripted result of the next call per key: Get: ok notfound error cut_s cut_r cut_c badstatus; Set/Delete: ok error
@@ -1126,6 +1153,10 @@ func (s *MemStore) Get(key []byte) ([]byte, error) {
 	if s.isDead() {
 		return nil, store.ErrNotFound
 	}
+	if s.w.GateStoreGet {
+		// relaxed-locking schedules: the read of the store is a step of its own
+		s.w.S.Point("store.get")
+	}
 	s.mu.Lock()
 	defer s.mu.Unlock()
 	k := string(key)
@@ -1164,7 +1195,11 @@ func (s *MemStore) Set(key []byte, data []byte, ttl time.Duration) error {
 	// the store has been handed the bytes but has not consumed them yet
 	s.w.mu.Lock()
 	if !s.w.dead[sched.Gid()] {
-		s.w.emitLocked(Event{"op": "SetTried", "k": s.w.kname(string(key))})
+		e := 0
+		if ri := s.w.reqGid[sched.Gid()]; ri != nil {
+			e = ri.saving
+		}
+		s.w.emitLocked(Event{"op": "SetTried", "d": s.Disp, "k": s.w.kname(string(key)), "e": e})
 	}
 	s.w.mu.Unlock()
 	s.w.S.Point("store.set")
@@ -1195,7 +1230,11 @@ func (s *MemStore) Set(key []byte, data []byte, ttl time.Duration) error {
 	}()
 	s.w.mu.Lock()
 	if !s.w.dead[gid] {
-		s.w.emitLocked(Event{"op": "Persisted", "k": s.w.kname(k), "v": ver, "ok": ok})
+		e := 0
+		if ri := s.w.reqGid[gid]; ri != nil {
+			e = ri.saving
+		}
+		s.w.emitLocked(Event{"op": "Persisted", "d": s.Disp, "k": s.w.kname(k), "e": e, "v": ver, "ok": ok})
 	}
 	s.w.mu.Unlock()
 	return nil
